@@ -14,9 +14,68 @@ type (
 	Once      = vx.Once
 	Cond      = vx.Cond
 	Locker    = sync.Locker
-	Map       = sync.Map
-	Pool      = sync.Pool
 )
+
+// Map is sync.Map with a scheduling point before every operation (each operation is atomic; what matters is
+// its order against the operations of other tasks).
+type Map struct{ m sync.Map }
+
+func (m *Map) Load(k any) (any, bool)    { vx.AtomicPoint(false); return m.m.Load(k) }
+func (m *Map) Store(k, v any)            { vx.AtomicPoint(true); m.m.Store(k, v) }
+func (m *Map) Delete(k any)              { vx.AtomicPoint(true); m.m.Delete(k) }
+func (m *Map) Clear()                    { vx.AtomicPoint(true); m.m.Clear() }
+func (m *Map) Swap(k, v any) (any, bool) { vx.AtomicPoint(true); return m.m.Swap(k, v) }
+func (m *Map) LoadOrStore(k, v any) (any, bool) {
+	vx.AtomicPoint(true)
+	return m.m.LoadOrStore(k, v)
+}
+func (m *Map) LoadAndDelete(k any) (any, bool) { vx.AtomicPoint(true); return m.m.LoadAndDelete(k) }
+func (m *Map) CompareAndSwap(k, o, n any) bool {
+	vx.AtomicPoint(true)
+	return m.m.CompareAndSwap(k, o, n)
+}
+func (m *Map) CompareAndDelete(k, o any) bool {
+	vx.AtomicPoint(true)
+	return m.m.CompareAndDelete(k, o)
+}
+
+// Range visits a snapshot of the keys in sorted-by-insertion-independent order is not possible for arbitrary
+// keys: the real iteration order is used, one scheduling point before the walk and one before every callback.
+func (m *Map) Range(f func(k, v any) bool) {
+	vx.AtomicPoint(false)
+	m.m.Range(func(k, v any) bool {
+		vx.AtomicPoint(false)
+		return f(k, v)
+	})
+}
+
+// Pool is a deterministic stand-in for sync.Pool: one LIFO free list shared by all tasks (the real pool is
+// per-P and may drop items at any time; reuse across tasks - the thing that makes pooled buffers dangerous - is
+// what this keeps), a scheduling point before Get and Put.
+type Pool struct {
+	New   func() any
+	items []any
+}
+
+func (p *Pool) Get() any {
+	vx.AtomicPoint(true)
+	if n := len(p.items); n > 0 {
+		x := p.items[n-1]
+		p.items = p.items[:n-1]
+		return x
+	}
+	if p.New != nil {
+		return p.New()
+	}
+	return nil
+}
+
+func (p *Pool) Put(x any) {
+	vx.AtomicPoint(true)
+	if x != nil {
+		p.items = append(p.items, x)
+	}
+}
 
 func NewCond(l sync.Locker) *Cond { return vx.NewCond(l) }
 
